@@ -491,6 +491,7 @@ def read_length_statistics_iadd(c):
     """merging the histograms of written read lengths of two chunks: for R1 and for R2 every length is listed with the sum
     of its two counts (so the written-reads and written-bases figures of the report add up over the chunks)"""
     c.types(self=RLStatsT, other=RLStatsT)
+    c.runtime = {"module": "cstats", "name": "read_length_iadd"}
     c.returns(RLStatsT)
     c.modifies = ["self"]
     c.spec(stats_spec)
